@@ -253,6 +253,21 @@ func scenarios() []*explore.Scenario {
 	mk("restart+zombie/faults", true, 1, 1, "quick", restart)
 	mk("restart+zombie@3", false, 3, 0, "thorough", restart)
 	mk("restart+zombie/faults@2", true, 2, 2, "thorough", restart)
+	// S2b: leadership goes a -> b -> a while a's allocator object stays alive with a
+	// partly used window; every newly elected leader rebases before serving.
+	flipflop := func(w *world) ([]string, []func()) {
+		cl := w.st.Client()
+		a := id.NewAllocator(cl, root, "a")
+		b := id.NewAllocator(cl, root, "b")
+		return []string{"a", "b", "env"}, []func(){
+			func() { w.alloc("a", a); w.rebase("a", a); w.drain("a", a, 1001); w.alloc("a", a) },
+			func() { w.rebase("b", b); w.alloc("b", b); w.alloc("b", b) },
+			func() { w.setLeader("b"); w.setLeader("a") },
+		}
+	}
+	mk("flip-flop", false, 2, 0, "quick", flipflop)
+	mk("flip-flop/faults", true, 2, 1, "quick", flipflop)
+	mk("flip-flop@3", true, 3, 2, "thorough", flipflop)
 	// S3: three members, leader record absent for a while.
 	three := func(w *world) ([]string, []func()) {
 		cl := w.st.Client()
